@@ -26,7 +26,7 @@ executed).
 """
 import re
 
-from fvlib.core import CFG, assignments, calls, callee_matches, callee_name, describe, short, switch_arms
+from fvlib.core import CFG, assignments, calls, callee_matches, callee_name, describe, describe_nf, match_commuted, short, switch_arms
 from fvlib import codec
 from fvlib.consteval import eval_fn, NotConst
 
@@ -402,15 +402,19 @@ def dynamic_rules(F, rep, tx, CT):
                     out.append("agg:%s(%s)" % (rv[2], ",".join(describe(f, a, depth=depth) for a in rv[3])))
         return out
 
-    SUM = r"call:unwrap_or_default\(call:reduce\(call:map\(%s,agg:\{closure#\d+\}\),fn:[^)]*saturating_add\)\)"
+    # sum of the element sizes with saturation: `.map(size).reduce(saturating_add).unwrap_or_default()` or `.map(size).fold(0, saturating_add)`
+    SUM_T = r"(?:call:unwrap_or_default\(call:reduce\(call:map\(@X@,agg:\{closure#\d+\}\),fn:[^)]*saturating_add\)\)|call:fold\(call:map\(@X@,agg:\{closure#\d+\}\),const:0,fn:[^)]*saturating_add\))"
+
+    def SUMF(x):
+        return SUM_T.replace("@X@", x)
     rules = [
         ("Policies", "policies_offset", r"^call:body_offset_end\(arg:self\)$"),
         ("Inputs", "inputs_offset", r"^call:saturating_add\(call:policies_offset\(arg:self\),call:size_dynamic\(arg:self\.policies\)\)$"),
-        ("Outputs", "outputs_offset", r"^call:saturating_add\(call:inputs_offset\(arg:self\)," + SUM % r"call:iter\((call:deref\()?call:inputs\(arg:self\)\)?\)" + r"\)$"),
-        ("Witnesses", "witnesses_offset", r"^call:saturating_add\(call:outputs_offset\(arg:self\)," + SUM % r"call:iter\((call:deref\()?call:outputs\(arg:self\)\)?\)" + r"\)$"),
-        ("Inputs", "inputs_offset_at", r"^agg:Some\(call:saturating_add\(call:inputs_offset\(arg:self\)," + SUM % r"call:take\(call:iter\((call:deref\()?call:inputs\(arg:self\)\)?\),arg:idx\)" + r"\)\)$"),
-        ("Outputs", "outputs_offset_at", r"^agg:Some\(call:saturating_add\(call:outputs_offset\(arg:self\)," + SUM % r"call:take\(call:iter\((call:deref\()?call:outputs\(arg:self\)\)?\),arg:idx\)" + r"\)\)$"),
-        ("Witnesses", "witnesses_offset_at", r"^agg:Some\(call:saturating_add\(call:witnesses_offset\(arg:self\)," + SUM % r"call:take\(call:iter\((call:deref\()?call:witnesses\(arg:self\)\)?\),arg:idx\)" + r"\)\)$"),
+        ("Outputs", "outputs_offset", r"^call:saturating_add\(call:inputs_offset\(arg:self\)," + SUMF(r"call:iter\((call:deref\()?call:inputs\(arg:self\)\)?\)") + r"\)$"),
+        ("Witnesses", "witnesses_offset", r"^call:saturating_add\(call:outputs_offset\(arg:self\)," + SUMF(r"call:iter\((call:deref\()?call:outputs\(arg:self\)\)?\)") + r"\)$"),
+        ("Inputs", "inputs_offset_at", r"^agg:Some\(call:saturating_add\(call:inputs_offset\(arg:self\)," + SUMF(r"call:take\(call:iter\((call:deref\()?call:inputs\(arg:self\)\)?\),arg:\w+\)") + r"\)\)$"),
+        ("Outputs", "outputs_offset_at", r"^agg:Some\(call:saturating_add\(call:outputs_offset\(arg:self\)," + SUMF(r"call:take\(call:iter\((call:deref\()?call:outputs\(arg:self\)\)?\),arg:\w+\)") + r"\)\)$"),
+        ("Witnesses", "witnesses_offset_at", r"^agg:Some\(call:saturating_add\(call:witnesses_offset\(arg:self\)," + SUMF(r"call:take\(call:iter\((call:deref\()?call:witnesses\(arg:self\)\)?\),arg:\w+\)") + r"\)\)$"),
     ]
     for tr, m, want in rules:
         fn = P % (tr, m)
@@ -421,7 +425,7 @@ def dynamic_rules(F, rep, tx, CT):
         rep.saw(fn)
         cfg, un, ca = uncached(f)
         ds = [d for d in ret_desc(f, un) if d != "agg:None()"]
-        ok = len(ds) == 1 and re.match(want, ds[0]) is not None
+        ok = len(ds) == 1 and match_commuted(want, ds[0]) is not None
         rep.check(ok, "FORM-dynamic", m, "%s:%s" % (f["file"], f["line"]), "uncached %s returns %s" % (m, ds))
         if m.endswith("_at"):
             from fvlib.core import guards, guard_region
@@ -438,16 +442,16 @@ def dynamic_rules(F, rep, tx, CT):
     f = tx[S % ("ScriptData", "script_data_offset")]
     cfg, un, ca = uncached(f)
     ds = ret_desc(f, un)
-    rep.check(len(ds) == 1 and re.match(r"^call:saturating_add\(call:script_offset\(arg:self\),call:unwrap_or\(call:padded_len\(call:as_slice\((call:deref\()?arg:self\.body\.script[^,]*\),const:.*MAX\)\)$", ds[0]) is not None,
+    rep.check(len(ds) == 1 and match_commuted(r"^call:saturating_add\(call:script_offset\(arg:self\),call:unwrap_or\(call:padded_len\(call:as_slice\((call:deref\()?(arg:self\.body\.script|call:script\(arg:self\))\)*\),const:.*MAX\)\)$", ds[0]) is not None,
               "FORM-dynamic", "script_data_offset=script_offset+padded_len(script)", "%s:%s" % (f["file"], f["line"]), "returns %s" % ds)
     ends = {
-        "script": (r"^call:saturating_add\(call:script_data_offset\(arg:self\),call:unwrap_or\(call:padded_len\(call:as_slice\((call:deref\()?arg:self\.body\.script_data", "script_data_offset + padded_len(script_data)"),
+        "script": (r"^call:saturating_add\(call:script_data_offset\(arg:self\),call:unwrap_or\(call:padded_len\(call:as_slice\((call:deref\()?(arg:self\.body\.script_data|call:script_data\(arg:self\))", "script_data_offset + padded_len(script_data)"),
     }
     for kind, (rx, txt) in ends.items():
         cands = [n for n in tx if re.match(re.escape(T) + kind + r"::field::<impl fuel_tx::transaction::field::ChargeableBody<.*> for .*>::body_offset_end$", n)]
         f = tx[cands[0]]
         ds = ret_desc(f, set(CFG(f).reach))
-        rep.check(len(ds) == 1 and re.match(rx, ds[0]) is not None, "FORM-dynamic", "%s::body_offset_end=%s" % (kind, txt), "%s:%s" % (f["file"], f["line"]), "returns %s" % ds)
+        rep.check(len(ds) == 1 and match_commuted(rx, ds[0]) is not None, "FORM-dynamic", "%s::body_offset_end=%s" % (kind, txt), "%s:%s" % (f["file"], f["line"]), "returns %s" % ds)
     # create / upload / blob / upgrade body ends: static start + element count * element size  (or constant)
     for kind, rx in (("create", r"storage_slots_offset_static\(\).*(storage_slots|SLOT_SIZE)"), ("upload", r"proof_set_offset_static\(\).*proof_set"), ("blob", r"(bytecode_witness_index|blob_id)_offset_static\(\)"),
                      ("upgrade", r"upgrade_purpose_offset_static\(\).*(purpose|size_static)")):
@@ -490,16 +494,34 @@ def dynamic_rules(F, rep, tx, CT):
         okc = okc or (len(ds) == 1 and re.match(r"^call:saturating_add\(arg:o,call:unwrap_or\(call:padded_len\((call:deref\()*arg:#1\.0\)*\),const:.*MAX\)\)$", ds[0]) is not None)
     cap = [describe(f, args[1], depth=10) for i, c, args, *_ in calls(f) if callee_matches(c, r"Option::<T>::map$")]
     rep.check(okc and cap == ["agg:{closure#0}(arg:self@MessageDataPredicate.0.data)"], "FORM-predicate", "MessageDataPredicate:+padded_len(data)", None, "closures %s capturing %s" % ([c[0] for c in cl], cap))
-    cl = F.find(re.escape(T + "input::Input::predicate_data_offset") + r"::\{closure#\d+\}$", ["fuel_tx"], required=False)
-    okc = False
-    for cn, cf in cl:
-        ds = ret_desc(cf, set(CFG(cf).reach))
-        okc = okc or (len(ds) == 1 and re.match(r"^call:saturating_add\(arg:o,call:unwrap_or\(call:padded_len\((call:deref\()*arg:#1\.0\)*\),const:.*MAX\)\)$", ds[0]) is not None)
-    f = tx[T + "input::Input::predicate_data_offset"]
-    cap = [describe(f, args[1], depth=10) for i, c, args, *_ in calls(f) if callee_matches(c, r"Option::<T>::map$")]
-    okc = okc and cap == ["agg:{closure#0}(var:predicate)"]
+    # predicate_data_offset = predicate_offset() + padded_len(predicate) (saturating; usize::MAX when the padded length
+    # overflows), written inline or through Option::map(closure): decided over the function and its closures together
+    fname = T + "input::Input::predicate_data_offset"
+    f = tx[fname]
+    fam = [(fname, f)] + F.find(re.escape(fname) + r"::\{closure#\d+\}$", ["fuel_tx"], required=False)
+    dom_calls, pl_args, uo = [], [], []
+    for gn, g in fam:
+        for i, c, args, *_ in calls(g):
+            nm = callee_name(c).rsplit("::", 1)[-1]
+            if nm in ("map", "branch", "from_residual", "deref", "unwrap_or", "as_ref", "into", "from", "and_then"):
+                if nm == "unwrap_or":
+                    uo.append(describe(g, args[1], depth=6))
+                continue
+            dom_calls.append(nm)
+            if nm == "padded_len":
+                d_ = describe_nf(F, g, args[0], depth=14)
+                if gn != fname and re.search(r"arg:#1\.(\d+)", d_):
+                    # captured by the closure: what the parent stored in that environment slot
+                    k_ = int(re.search(r"arg:#1\.(\d+)", d_).group(1))
+                    for i2, j2, p2, rv2, l2 in assignments(f):
+                        if rv2[0] == "agg" and rv2[1].endswith(gn.rsplit("::", 1)[-1]) and k_ < len(rv2[3]):
+                            d_ = describe_nf(F, f, rv2[3][k_], depth=14)
+                pl_args.append(d_)
+    okc = sorted(dom_calls) == ["padded_len", "predicate_offset", "saturating_add"] and len(pl_args) == 1 and ".predicate" in pl_args[0] and ".predicate_data" not in pl_args[0] \
+        and len(uo) == 1 and re.search(r"MAX", uo[0]) is not None
     base = [callee_name(c).rsplit("::", 1)[-1] for i, c, *_ in calls(f) if callee_matches(c, r"Input::predicate_offset$")]
-    rep.check(okc and base == ["predicate_offset"], "FORM-predicate", "predicate_data_offset=predicate_offset+padded_len(predicate)", "%s:%s" % (f["file"], f["line"]), "base %s" % base)
+    rep.check(okc and base == ["predicate_offset"], "FORM-predicate", "predicate_data_offset=predicate_offset+padded_len(predicate)", "%s:%s" % (f["file"], f["line"]),
+              "base %s; calls %s; padded_len of %s; unwrap_or %s" % (base, sorted(dom_calls), pl_args, uo))
     fn = P % ("Inputs", "inputs_predicate_offset_at")
     got = set()
     for cn, cf in F.find(re.escape(fn) + r"::\{closure#\d+\}.*$", ["fuel_tx"], required=False):
@@ -544,7 +566,7 @@ def cached_rules(F, rep, tx, CT):
         a = agg[0]
         ok = a.get("inputs_offset") == "call:inputs_offset(arg:tx)" and a.get("outputs_offset") == "call:outputs_offset(arg:tx)" and a.get("witnesses_offset") == "call:witnesses_offset(arg:tx)" and \
             all(re.match(r"^call:with_capacity\(call:len\(call:%s\(arg:tx\)\)\)$" % s_, a.get(s_ + "_offset_at", "")) for s_ in ("inputs", "outputs", "witnesses")) and \
-            "inputs_predicate_offset_at" in a and "closure#0" in a["inputs_predicate_offset_at"]
+            "inputs_predicate_offset_at" in a and re.search(r"closure#0|call:with_capacity\(call:len\(call:inputs\(arg:tx\)\)\)", a["inputs_predicate_offset_at"]) is not None
     rep.check(ok, "SIB-cached", "compute:fields-from-same-named-accessors", where, "CommonMetadata literal: %s" % agg)
     # prefix-sum loops: start at tx.X_offset(), advance by checked_add(element.size())
     starts = sorted(callee_name(c).rsplit("::", 1)[-1] for i, c, args, dest, *_ in calls(f) if callee_matches(c, r"::(inputs|outputs|witnesses)_offset$") and dest and (lambda nm: nm == "offset")(__import__("fvlib.core", fromlist=["dbg_name"]).dbg_name(f, dest[0])))
@@ -564,5 +586,7 @@ def cached_rules(F, rep, tx, CT):
         kind = re.search(r"types::(\w+)::", pn).group(1)
         rep.check(bool(nones) and not early, "SIB-cached", "%s::precompute:cache-cleared-before-any-accessor" % kind, "%s:%s" % (pf["file"], pf["line"]),
                   "values stored in the cache are read through accessors while the old cache is still installed: %s" % early)
-    pc = [n for n, ff in F.find(r"^fuel_tx::transaction::metadata::CommonMetadata::compute::\{closure#\d+\}$", ["fuel_tx"], required=False) if any(callee_matches(c, r"::inputs_predicate_offset_at$") for i, c, *_ in calls(ff))]
+    # the accessor is called (once) from compute itself (a loop pushing into the vector) or from its mapping closure
+    pc = [n for n, ff in [("fuel_tx::transaction::metadata::CommonMetadata::compute", f)] + F.find(r"^fuel_tx::transaction::metadata::CommonMetadata::compute::\{closure#\d+\}$", ["fuel_tx"], required=False)
+          for i, c, *_ in calls(ff) if callee_matches(c, r"::inputs_predicate_offset_at$")]
     rep.check(len(pc) == 1, "SIB-cached", "compute:predicate-offsets-from-inputs_predicate_offset_at", where, "closures calling the accessor: %s" % pc)
